@@ -1247,4 +1247,101 @@ col_harness!(#[kani::unwind(6)]
 	kani::cover!(mode == 2, "reached");
 });
 
+// ================================================================== U40: the per-operation dispatch of a hash column: existing key vs new key vs absent key
+pub(crate) static mut WP_PRESENT: bool = false;
+pub(crate) static mut WP_EXIST_N: usize = 0;
+pub(crate) static mut WP_EXIST_OK: bool = true;
+pub(crate) static mut WP_NEW_N: usize = 0;
+pub(crate) static mut WP_NEW_OK: bool = true;
+pub(crate) static mut WP_KEY0: u8 = 0;
+pub(crate) static mut WP_OUT: u8 = 0;
+fn wp_outcome() -> PlanOutcome {
+	match unsafe { WP_OUT } % 3 {
+		0 => PlanOutcome::Written,
+		1 => PlanOutcome::NeedReindex,
+		_ => PlanOutcome::Skipped,
+	}
+}
+// HashColumn::search_all_indexes by contract (U15c): where the key is indexed, if anywhere
+pub(crate) fn stub_search_all_indexes<'a>(key: &Key, tables: &'a Tables, _reindex: &'a Reindex, _log: &LogWriter) -> Result<Option<(&'a IndexTable, usize, Address)>> {
+	unsafe {
+		WP_EXIST_OK = WP_EXIST_OK && key[0] == WP_KEY0;
+		if WP_PRESENT {
+			Ok(Some((&tables.index, 37, Address::from_u64(0x4242))))
+		} else {
+			Ok(None)
+		}
+	}
+}
+// HashColumn::write_plan_existing by contract (U15): the operation applied to the entry found
+pub(crate) fn stub_write_plan_existing(_c: &HashColumn, tables: &Tables, change: &Operation<Key, RcValue>, _log: &mut LogWriter, index: &IndexTable, sub_index: usize, existing_address: Address) -> Result<PlanOutcome> {
+	unsafe {
+		WP_EXIST_N += 1;
+		WP_EXIST_OK = WP_EXIST_OK && change.key()[0] == WP_KEY0 && sub_index == 37 && existing_address.as_u64() == 0x4242 && index.id == tables.index.id;
+	}
+	Ok(wp_outcome())
+}
+// HashColumn::write_plan_new by contract (U15): value stored and indexed in the current index
+pub(crate) fn stub_write_plan_new<'a, 'b>(
+	_c: &HashColumn,
+	tables: RwLockUpgradableReadGuard<'a, Tables>,
+	reindex: RwLockUpgradableReadGuard<'b, Reindex>,
+	key: &Key,
+	value: &[u8],
+	_log: &mut LogWriter,
+) -> Result<(PlanOutcome, RwLockUpgradableReadGuard<'a, Tables>, RwLockUpgradableReadGuard<'b, Reindex>)> {
+	unsafe {
+		WP_NEW_N += 1;
+		WP_NEW_OK = WP_NEW_OK && key[0] == WP_KEY0 && value.len() == 2 && value[0] == 0x77;
+	}
+	Ok((wp_outcome(), tables, reindex))
+}
+growth_harness!(#[kani::unwind(6)]
+	#[kani::stub(super::HashColumn::search_all_indexes, stub_search_all_indexes)]
+	#[kani::stub(super::HashColumn::write_plan_existing, stub_write_plan_existing)]
+	#[kani::stub(super::HashColumn::write_plan_new, stub_write_plan_new)]
+	u40_write_plan_dispatch, {
+	let col = std::mem::ManuallyDrop::new(mk_growing_column(0));
+	let key: Key = kani::any();
+	let kind: u8 = kani::any();
+	unsafe {
+		WP_PRESENT = kani::any();
+		WP_EXIST_N = 0;
+		WP_EXIST_OK = true;
+		WP_NEW_N = 0;
+		WP_NEW_OK = true;
+		WP_KEY0 = key[0];
+		WP_OUT = kani::any();
+	}
+	let change: Operation<Key, RcValue> = match kind % 4 {
+		0 => Operation::Set(key, RcValue::from(vec![0x77u8, 0x78])),
+		1 => Operation::Reference(key),
+		2 => Operation::Dereference(key),
+		_ => Operation::ReferenceTree(key),
+	};
+	let overlays: &'static RwLock<crate::log::LogOverlays> = Box::leak(Box::new(RwLock::new(crate::log::LogOverlays::with_columns(0))));
+	let w: &'static mut crate::log::LogWriter<'static> = Box::leak(Box::new(crate::log::LogWriter::new(overlays, 7)));
+	let r = ok(col.write_plan(&change, w));
+	let present = unsafe { WP_PRESENT };
+	let (en, nn) = unsafe { (WP_EXIST_N, WP_NEW_N) };
+	assert!(unsafe { WP_EXIST_OK } && unsafe { WP_NEW_OK }, "U40.write_plan.callees_get_the_key_value_and_entry_of_this_operation");
+	if present {
+		// an indexed key: the operation is applied to the entry found, never inserted a second time
+		assert!(en == 1 && nn == 0, "U40.write_plan.existing_key_is_updated_where_it_was_found");
+		assert!(r.is_some(), "U40.write_plan.no_error");
+	} else {
+		match kind % 4 {
+			0 => assert!(en == 0 && nn == 1 && r.is_some(), "U40.write_plan.new_key_is_stored_and_indexed"),
+			1 | 2 => {
+				// references / dereferences of absent keys are ignored: nothing is written
+				assert!(en == 0 && nn == 0, "U40.write_plan.reference_or_dereference_of_an_absent_key_writes_nothing");
+				assert!(matches!(r, Some(PlanOutcome::Skipped)), "U40.write_plan.reference_or_dereference_of_an_absent_key_is_skipped");
+			},
+			_ => assert!(r.is_none() && en == 0 && nn == 0, "U40.write_plan.tree_operation_on_a_key_value_column_is_rejected"),
+		}
+	}
+	std::mem::forget(change);
+	kani::cover!(!present && kind % 4 == 1, "reached");
+});
+
 /*@@GENERATED:column@@*/
